@@ -17,4 +17,8 @@ import (
 	_ "google.golang.org/protobuf/internal/testprotos/testeditions"
 	_ "google.golang.org/protobuf/internal/testprotos/testeditions/testeditions_hybrid"
 	_ "google.golang.org/protobuf/internal/testprotos/testeditions/testeditions_opaque"
+	// shapes the repository's test schemas lack (opaque, edition 2023; generated with the repository's own protoc-gen-go from
+	// rv2.txtpb by gen_main.go.txt, contributed by a reviewing sub-agent): a lazily decodable message used as a DELIMITED field,
+	// a map whose value type has a submessage with a required field, lazy fields of a type with extensions
+	_ "google.golang.org/protobuf/internal/verifh/rv2pb"
 )
